@@ -78,6 +78,15 @@ func genAmt(g *Gen) {
 		"0.00000001", "0.000000001", "000.000", "-1", "1.5", "١", "1\x00", "1,5", "1.5e1", "+.5", "-.5", ".+5"} {
 		emitParse("corpus", s)
 	}
+	// numerals in which ONE digit is a non-ASCII Unicode decimal digit (Arabic-Indic, extended Arabic-Indic, Devanagari,
+	// full-width), in the integral or the fractional part, with 1..8 fractional digits: not numerals of the property -
+	// every one must be refused (seed C15-5: a rune-based digit test let them through and the fraction was folded from
+	// their UTF-8 bytes)
+	for _, d := range []string{"\u0665", "\u06f5", "\u096b", "\uff15", "\u0660", "\uff10"} {
+		for _, tmpl := range []string{"1.%s", "0.%s", "%s.5", "%s", "12.3%s", "0.0000000%s", "0.%s0", "7.%s%s", "1%s.25"} {
+			emitParse("unicode-digit", strings.ReplaceAll(tmpl, "%s", d))
+		}
+	}
 	for _, m := range []int64{0, 1, 9, 10, 99999999, 100000000, 100000001, 150000000, 1000000000, maxAmt - 1, maxAmt, maxAmt + 1,
 		-1, math.MinInt64, math.MaxInt64, 123456789012345, 10000000000000000} {
 		emitFormat("format-boundary", m)
